@@ -45,7 +45,9 @@ COMPONENTS = {
              "stat metadata", "C git (absent)"],
 }
 PROBES = {"thin_pack_completed": 1, "objects_transferred": 1,
-          "failed_transfer": 1, "retry_after_fault_ok": 1, "shallow_fetch": 1}
+          "failed_transfer": 1, "retry_after_fault_ok": 1, "shallow_fetch": 1,
+          "second_fetch_after_growth": 1, "fetch_into_shallow_repo": 1,
+          "hostile_want_refused": 1}
 MIN_BUDGET = 120
 
 
@@ -98,7 +100,20 @@ def gen_plan(seed, tier):
                 "faults": faults},
         "rbuf": rng.choice([8192, 16, 1]),
     }
-    if plan["depth"] and "shallow" in plan["server_drop"]:
+    # a client that asks for an object the server holds but does not
+    # advertise, next to legitimate wants (a raced or hostile request)
+    plan["hostile_want"] = (op == "fetch" and transport == "net" and
+                            plan["garbage"] and rng.random() < 0.2)
+    # second stage: the sender's history grows (optionally by a merge of a
+    # side branch forked from any older commit, possibly below a shallow
+    # boundary) and the receiver fetches again, plain or deepening
+    plan["second"] = None
+    if op in ("fetch", "clone") and not faults and rng.random() < (
+            0.6 if plan["depth"] else 0.25):
+        plan["second"] = {"grow": rng.randint(1, 3),
+                          "side": rng.random() < 0.7,
+                          "depth": rng.choice([None, None, None, 1, 3])}
+    if (plan["depth"] or plan["second"]) and "shallow" in plan["server_drop"]:
         # a depth request against a server without 'shallow' is refused by
         # the client up front; nothing to observe
         plan["server_drop"].remove("shallow")
@@ -255,8 +270,51 @@ def run_plan(plan):
         conn2 = None
         if conn is not None and plan["net"]["faults"]:
             conn2 = simnet.Conn(sim, "r", cap=None, chunk_max=None)
+        conn3 = None
+        second = plan.get("second")
+        if conn is not None and second:
+            conn3 = simnet.Conn(sim, "s", cap=plan["net"]["cap"],
+                                chunk_max=plan["net"]["chunk_max"])
         cur = {"conn": conn}
         _hook_thin(sim)
+
+        def server3_body(a):
+            from dulwich.server import FileSystemBackend
+            backend = FileSystemBackend()
+            nettransport.serve_one(conn3.b, backend, handlers, {})
+
+        def grow_sender():
+            """The sender's history moves on between the two fetches."""
+            r = Repo(server_path)
+            try:
+                heads = [n for n in chosen if n.startswith(b"refs/heads/")]
+                if not heads:
+                    heads = sorted(n for n in srefs
+                                   if n.startswith(b"refs/heads/"))[:1]
+                    chosen.append(heads[0])
+                name = heads[0]
+                tip = srefs[name]
+                grng = random.Random(derive_seed(plan["seed"], "c05grow"))
+                for j in range(second["grow"]):
+                    blob = u.blob(b"grown %d %d\n" % (plan["seed"], j))
+                    tree = u.tree([(b"g%d.txt" % j, 0o100644, blob)])
+                    parents = [tip]
+                    if second["side"] and j == 0:
+                        old_c = grng.choice(commits)
+                        sb = u.blob(b"side %d\n" % plan["seed"])
+                        st_ = u.tree([(b"side.txt", 0o100644, sb)])
+                        parents.append(u.commit(st_, [old_c], 1700600000,
+                                                b"side\n"))
+                    tip = u.commit(tree, parents, 1700600100 + j,
+                                   b"grown %d\n" % j)
+                present = set(r.object_store)
+                u.add_to_store(r.object_store,
+                               [i for i in sorted(u.closure([tip]))
+                                if i not in present])
+                r.refs[name] = tip
+                srefs[name] = tip
+            finally:
+                r.close()
 
         def server_body(a):
             from dulwich.server import FileSystemBackend
@@ -282,7 +340,7 @@ def run_plan(plan):
                     c._fetch_capabilities.discard(cap.encode())
             return c
 
-        def do_transfer(client, a=None):
+        def do_transfer(client, a=None, op=op, depth=plan["depth"]):
             path = server_path
             if op == "fetch":
                 r = recv if isinstance(recv, MemoryRepo) else Repo(recv_path)
@@ -296,9 +354,16 @@ def run_plan(plan):
                                     depth or v not in r.object_store):
                                 w.append(v)
                         outcome["wants"] = list(w)
+                        outcome.setdefault("wants_all", []).extend(w)
+                        if plan.get("hostile_want") and w:
+                            hidden = [i for i in garbage_ids
+                                      if u.type_of(i) == H.COMMIT]
+                            if hidden:
+                                outcome["hostile"] = hidden[-1]
+                                return w + [hidden[-1]]
                         return w
                     res = client.fetch(path, r, determine_wants=wants,
-                                       depth=plan["depth"])
+                                       depth=depth)
                     outcome["result"] = res
                     outcome["shallow"] = set(r.get_shallow())
                 finally:
@@ -306,7 +371,7 @@ def run_plan(plan):
                         r.close()
             elif op == "clone":
                 r = client.clone(path, recv_path, mkdir=True, bare=True,
-                                 depth=plan["depth"])
+                                 depth=depth)
                 outcome["shallow"] = set(r.get_shallow())
                 outcome["cloned_refs"] = {kk: v for kk, v in
                                           r.refs.as_dict().items()}
@@ -337,6 +402,22 @@ def run_plan(plan):
             finally:
                 if conn is not None:
                     conn.a.close()
+            if second and outcome.get("ok"):
+                outcome.pop("ok")
+                try:
+                    grow_sender()
+                    cur["conn"] = conn3
+                    do_transfer(mk_client(), op="fetch",
+                                depth=second["depth"])
+                    outcome["ok"] = True
+                    outcome["second_done"] = True
+                except (HangupException, GitProtocolError, OSError,
+                        SendPackError, AssertionError, KeyError, ValueError,
+                        EOFError) as e:
+                    outcome["error"] = e
+                    outcome["second_failed"] = True
+            if conn3 is not None:
+                conn3.a.close()
             if conn2 is not None:
                 if "error" in outcome and op != "clone":
                     # bounded liveness: the same operation, faults off
@@ -367,6 +448,8 @@ def run_plan(plan):
             sim.actor("server", server_body)
         if conn2 is not None:
             sim.actor("server2", server2_body)
+        if conn3 is not None:
+            sim.actor("server3", server3_body)
         sim.run()
         gc.collect()
         faulted = bool(plan["net"]["faults"]) and plan["transport"] == "net"
@@ -394,9 +477,14 @@ def run_plan(plan):
                 if bad_status:
                     viols.append({"sig": "C05/push-rejected-without-cause",
                                   "detail": f"{bad_status}"})
-            elif op == "fetch":
+            elif op == "fetch" or outcome.get("second_done"):
                 rr = recv if isinstance(recv, MemoryRepo) else Repo(recv_path)
-                tips = list(outcome.get("wants") or [])
+                tips = list(outcome.get("wants_all") or []) + list(
+                    (outcome.get("cloned_refs") or {}).values())
+                if outcome.get("second_done"):
+                    sim.stat("probe:second_fetch_after_growth")
+                    if outcome.get("shallow"):
+                        sim.stat("probe:fetch_into_shallow_repo")
                 # update refs as porcelain.fetch would
                 adv = outcome.get("advertised") or {}
                 for n in chosen:
@@ -417,7 +505,8 @@ def run_plan(plan):
                         "incomplete-closure"
                     viols.append({
                         "sig": f"C05/{cls}/{op}/{plan['transport']}" +
-                        ("/depth" if plan["depth"] else ""),
+                        ("/depth" if plan["depth"] else "") +
+                        ("/second" if outcome.get("second_done") else ""),
                         "detail": f"{probs[:4]} tips="
                         f"{[t.decode() for t in tips][:4]} shallow="
                         f"{sorted(shallow)[:3]}"})
@@ -441,8 +530,10 @@ def run_plan(plan):
                 if op == "push":
                     allowed = u.closure([srefs[n] for n in chosen])
                 else:
-                    asked = list(outcome.get("wants") or []) if op == "fetch" \
-                        else list(srefs.values())
+                    asked = list(outcome.get("wants_all") or [])
+                    if op == "clone":
+                        asked += list((outcome.get("cloned_refs") or
+                                       {}).values())
                     allowed = u.closure(asked)
                     if plan["include_tags"] or op == "clone":
                         # tags pointing into the fetched history may follow
@@ -454,9 +545,15 @@ def run_plan(plan):
                                     sim.stat("probe:tag_followed")
                 stray = sorted(i for i in new_ids
                                if i in u.objs and i not in allowed)
+                adv_closure = u.closure(list(srefs.values()))
+                if op != "push":
+                    # whatever was asked: nothing the sender does not
+                    # advertise may arrive
+                    stray = sorted(set(stray) | {
+                        i for i in new_ids
+                        if i in u.objs and i not in adv_closure})
                 if stray:
-                    unadv = [i for i in stray
-                             if i not in u.closure(list(srefs.values()))]
+                    unadv = [i for i in stray if i not in adv_closure]
                     cls = "sent-unreachable" if unadv else "sent-unrequested"
                     viols.append({
                         "sig": f"C05/{cls}/{op}/{plan['transport']}",
@@ -488,7 +585,9 @@ def run_plan(plan):
                         "detail": f"+{len(ids_after - pre_ids)} "
                         f"-{len(pre_ids - ids_after)} first error "
                         f"{outcome.get('first_error')!r}"})
-        if outcome.get("retry_failed"):
+        if outcome.get("retry_failed") and outcome.get("hostile") is not None:
+            sim.stat("probe:hostile_want_refused")
+        elif outcome.get("retry_failed"):
             viols.append({
                 "sig": f"C05/no-progress-after-faults/{op}/"
                 f"{type(outcome.get('error')).__name__}",
@@ -499,11 +598,18 @@ def run_plan(plan):
             sim.stat("probe:failed_transfer")
             if outcome.get("retry_failed"):
                 pass
+            elif outcome.get("hostile") is not None:
+                # asking for an unadvertised object is rightly refused
+                sim.stat("probe:hostile_want_refused")
             elif not netfired and not sim.abort_reason:
                 viols.append({
                     "sig": f"C05/failed-without-fault/{op}/"
-                    f"{plan['transport']}/{type(err).__name__}",
-                    "detail": repr(err)[:600]})
+                    f"{plan['transport']}/{type(err).__name__}" +
+                    ("/second" if outcome.get("second_failed") else ""),
+                    "detail": repr(err)[:600] + (
+                        f" second={second} shallow-before="
+                        f"{sorted(outcome.get('shallow') or [])[:3]}"
+                        if outcome.get("second_failed") else "")})
             elif op != "clone" and not isinstance(recv, MemoryRepo):
                 # failure atomicity: refs and object set unchanged
                 rr = Repo(recv_path)
@@ -602,6 +708,19 @@ def shrink(plan):
     if plan["net"]["faults"]:
         p = cp()
         p["net"]["faults"] = []
+        yield p
+    if plan.get("second"):
+        p = cp()
+        p["second"] = None
+        yield p
+        for k, v in (("grow", 1), ("side", False), ("depth", None)):
+            if plan["second"][k] != v:
+                p = cp()
+                p["second"][k] = v
+                yield p
+    if plan.get("hostile_want"):
+        p = cp()
+        p["hostile_want"] = False
         yield p
     for k, v in (("cap", None), ("chunk_max", None)):
         if plan["net"][k] != v:
